@@ -364,6 +364,7 @@ def as_z3_bool(x):
 
 # ---------------------------------------------------------------------------------------
 CONCRETIZE_LIMIT = 64
+FORMAT_LIMIT = [CONCRETIZE_LIMIT]  # ranges wider than this render as TaintedStr instead of forking (checks may lower it)
 
 
 class SymInt:
@@ -726,12 +727,12 @@ class SymInt:
         return f"SymInt<{self.lo}..{self.hi}>"
 
     def __format__(self, spec):
-        if self.hi - self.lo + 1 > CONCRETIZE_LIMIT and not z3.is_bv_value(z3.simplify(self.e)):
+        if self.hi - self.lo + 1 > FORMAT_LIMIT[0] and not z3.is_bv_value(z3.simplify(self.e)):
             return TaintedStr("\u27e6symbolic int\u27e7")
         return format(self.concretize(), spec)
 
     def __str__(self):
-        if self.hi - self.lo + 1 > CONCRETIZE_LIMIT and not z3.is_bv_value(z3.simplify(self.e)):
+        if self.hi - self.lo + 1 > FORMAT_LIMIT[0] and not z3.is_bv_value(z3.simplify(self.e)):
             return TaintedStr("\u27e6symbolic int\u27e7")
         return str(self.concretize())
 
